@@ -588,6 +588,9 @@ func runCase(tc *echoCase) *caseResult {
 }
 
 func child(mode string, in json.RawMessage) any {
+	if mode == "bighost" {
+		return childBig(in)
+	}
 	var tc echoCase
 	if err := json.Unmarshal(in, &tc); err != nil {
 		return &caseResult{Inconclusive: "bad-case"}
